@@ -11,6 +11,7 @@ import (
 // CountedLoop is a loop that visits the indices 0, 1, ..., len(Over)-1 in order, whatever its spelling
 // (`for i, x := range s`, `for i := range s`, `for i := 0; i < len(s); i++`, `for i := 0; len(s) > i; i += 1` ...).
 type CountedLoop struct {
+	members map[*ssa.BasicBlock]bool // blocks of the natural loop (lazily computed)
 	Header *ssa.BasicBlock
 	Phi    *ssa.Phi  // the loop variable in the header
 	D      int64     // the index visited by an iteration is Phi + D (1 for go/ssa's rotated range loops, 0 otherwise)
@@ -31,32 +32,10 @@ func (l *CountedLoop) IsIndex(v ssa.Value) bool {
 
 // Contains: block b belongs to the loop.
 func (l *CountedLoop) Contains(b *ssa.BasicBlock) bool {
-	g := G(l.Header.Parent())
-	if !g.Dominates(l.Header, b) {
-		return false
+	if l.members == nil {
+		l.members = naturalLoop(G(l.Header.Parent()), l.Header)
 	}
-	if b == l.Header {
-		return true
-	}
-	// b reaches the header without leaving its dominance region and without passing the exit first
-	seen := map[*ssa.BasicBlock]bool{}
-	var walk func(x *ssa.BasicBlock) bool
-	walk = func(x *ssa.BasicBlock) bool {
-		if x == l.Header {
-			return true
-		}
-		if seen[x] || !g.Dominates(l.Header, x) {
-			return false
-		}
-		seen[x] = true
-		for _, s := range g.Succs(x) {
-			if walk(s) {
-				return true
-			}
-		}
-		return false
-	}
-	return walk(b)
+	return l.members[b]
 }
 
 func offsetFrom(v ssa.Value, base ssa.Value, depth int) (int64, bool) {
@@ -187,8 +166,11 @@ func countedLoops(fn *ssa.Function) []*CountedLoop {
 				continue
 			}
 			// stay-in-loop successor
-			stayTrue := reaches(g, H.Succs[0], H)
-			stayFalse := reaches(g, H.Succs[1], H)
+			// (a successor that leaves this loop can still come back to H through an enclosing loop: membership in the
+			// natural loop of H also needs H to dominate it)
+			members := naturalLoop(g, H)
+			stayTrue := members[H.Succs[0]]
+			stayFalse := members[H.Succs[1]]
 			if stayTrue == stayFalse {
 				continue
 			}
@@ -199,7 +181,7 @@ func countedLoops(fn *ssa.Function) []*CountedLoop {
 				continue
 			}
 			// the length must not change inside the loop: the bound is the length of a value defined outside the loop
-			l := &CountedLoop{Header: H, Phi: ph, D: d, Over: lc.Call.Args[0], LenAt: lc}
+			l := &CountedLoop{Header: H, Phi: ph, D: d, Over: lc.Call.Args[0], LenAt: lc, members: members}
 			if stayTrue {
 				l.Body, l.Exit = H.Succs[0], H.Succs[1]
 			} else {
@@ -216,6 +198,30 @@ func countedLoops(fn *ssa.Function) []*CountedLoop {
 		}
 	}
 	return out
+}
+
+// naturalLoop: the blocks of the natural loop with header H: H and everything that reaches one of its latches (a
+// predecessor that H dominates) without passing through H.
+func naturalLoop(g *Graph, H *ssa.BasicBlock) map[*ssa.BasicBlock]bool {
+	in := map[*ssa.BasicBlock]bool{H: true}
+	var work []*ssa.BasicBlock
+	for _, p := range g.Preds(H) {
+		if g.Dominates(H, p) && !in[p] {
+			in[p] = true
+			work = append(work, p)
+		}
+	}
+	for len(work) > 0 {
+		b := work[len(work)-1]
+		work = work[:len(work)-1]
+		for _, p := range g.Preds(b) {
+			if !in[p] {
+				in[p] = true
+				work = append(work, p)
+			}
+		}
+	}
+	return in
 }
 
 func reaches(g *Graph, from, to *ssa.BasicBlock) bool {
